@@ -291,6 +291,35 @@ async function runCtxSeq(job, cg) {
   return out;
 }
 
+// C13 writer: replay sequences of write sizes on the real Hash256Writer, logging its projected state
+async function runWriter(job) {
+  const { Hash256Writer } = await import(pathToFileURL(path.join(clientDir, "hash.js")).href);
+  const events = [];
+  for (const beh of job.behaviours) {
+    const w = new Hash256Writer();
+    let chunks = 0;
+    const orig = w.processChunk.bind(w);
+    w.processChunk = (c) => { chunks++; return orig(c); };
+    const h = crypto.createHash("sha256");
+    events.push({ ev: "new" });
+    let off = 0;
+    for (const n of beh.writes) {
+      const data = new Uint8Array(n);
+      for (let i = 0; i < n; i++) data[i] = (off + i * 7 + 13) & 255;
+      off += n;
+      w.updateBytes(data);
+      h.update(data);
+      events.push({ ev: "upd", n, buf: w.bufferLength, tot: w.bytesHashed, blk: chunks });
+    }
+    let hex = "";
+    try { hex = w.digestHex(); } catch (e) { hex = "threw:" + errMsg(e); }
+    let threwAfter = false;
+    try { w.updateBytes(new Uint8Array(1)); } catch { threwAfter = true; }
+    events.push({ ev: "digest", blk: chunks, hex, oracle: h.digest("hex"), threwAfter });
+  }
+  return { id: job.id, events };
+}
+
 function tri2(f) {
   try {
     return { ok: true, v: String(f()), msg: "" };
@@ -319,6 +348,8 @@ async function main() {
       if (job.kind === "selftest") {
         selftest(job.terms);
         res = { id: job.id, selftest: "ok", n: job.terms.length };
+      } else if (job.kind === "writer") {
+        res = await runWriter(job);
       } else if (job.kind === "ctxseq") {
         res = await runCtxSeq(job, cg);
       } else {
